@@ -15,7 +15,9 @@ RULE = ("1: util::fill_buffer against the model for every composition of inputs 
         "request sizes equal read_to_end. 4: armor::write with a sink fault at every call including the final flush. non-trivial = cases whose verdict holds")
 TRUSTED = [
     "model file: coq/theories/Io/Fill.v (fill loop, consumer, block pump); theorems coq/theories/Props/C09.v; the chunking theorems of the concrete stateful transformers are C14 (normalising hasher / reader for every chunking and window size), C10 (armor reader) and C03 (streaming decryptor refines one-shot)",
-    "only util::fill_buffer is compared with the model octet for octet; for the composed readers and writers schedule independence and fault surfacing are checked by enumeration / adversarial schedules, not proved",
+    "state-machine models with request-/chunking-independence theorems: Armor/LineWriter.v, Armor/B64Reader.v, Sym/Seipd1Machine.v, Aead/Seipd2Machine.v, Frame/BodyReader.v (readers), Io/Emitter.v with "
+    "Sym/Seipd1EncMachine.v, Aead/Seipd2EncMachine.v, Frame/PartialWriter.v (staged producers); their octet-for-octet comparison with the library runs under C03, C12, C17 and here (LineWriter)",
+    "for the remaining composed readers and writers (compression, signature hashing readers, builder generators other than the literal one) schedule independence and fault surfacing are checked by enumeration / adversarial schedules, not proved",
 ]
 ASSUMPTIONS = ["one fault per run (single fault points)"]
 KNOWN = {}
